@@ -89,4 +89,16 @@ theorem refines_history_from (cs : List Call) (w : World) (a : Abs) (hlk : w.lk 
     simp only [runHist, specHist, hrun]
     exact ⟨by rw [h1], h2, h3, h4⟩
 
+/-- `refines_step` for a world given by its fields -/
+theorem refines_step_world (c : Call) (w : World) (a : Abs) (hlk : w.lk = {}) (hnf : w.fault = none)
+    (hs : Sim o w.st a) (ho : GoodOracle o) (hc : CidArgPlain c) :
+    ∃ w', (c.prog cfg o).run w = ((Abs.step cfg o a c).1, w') ∧ w'.lk = {} ∧ w'.fault = none ∧
+      Sim o w'.st (Abs.step cfg o a c).2 := by
+  have hw : w = calm w.st w.log := by
+    obtain ⟨st, lk, fault, log⟩ := w
+    simp only at hlk hnf
+    subst hlk; subst hnf; rfl
+  rw [hw]
+  exact refines_step cfg o c w.st w.log a hs ho hc
+
 end HS
